@@ -28,6 +28,41 @@ BASES = [{}, {"base_url": "http://en.wikipedia.org/w/"}, {"base_url": "http://de
          {"base_url": "https://x/'q\"", "script_extension": "", "login_credentials": "user:pw"}, {"base_url": "http://ü/"}]
 
 
+# falsy but meaningful: none of these is "unset" (only None is)
+FALSY = [0, "", False, ["L", []], ["D", {}]]
+
+
+def fz(rng, v, p=0.12):
+    """v, or with probability p one of the falsy values -- applied to EVERY attribute slot the generators fill."""
+    return rng.choice(FALSY) if rng.random() < p else v
+
+
+def gen_muts(rng):
+    """What a consumer does to its own loaded copy of a metabook (see `indep` in the harness)."""
+    muts = []
+    for _ in range(rng.choice([1, 1, 2, 3, 5])):
+        r = rng.random()
+        if r < 0.3:
+            muts.append(["append", rng.choice(TITLES), rng.choice([None, "D"]), {} if rng.random() < 0.7 else {"revision": rng.choice(["7", 0])}])
+        elif r < 0.45:
+            muts.append(["set", rng.choice(OPT_FIELDS + ["summary", "version", "custom_key"]), fz(rng, rng.choice(TITLES))])
+        elif r < 0.55:
+            muts.append(["additem", "chapter", {"title": rng.choice(TITLES)}])
+        elif r < 0.65:
+            muts.append(["wiki", rng.choice(["en", "de", None]), "http://w/"])
+        elif r < 0.7:
+            muts.append(["license", "GFDL", rng.choice(TITLES)])
+        elif r < 0.82:
+            muts.append(["item_set", rng.randrange(8), rng.choice(["title", "revision", "displaytitle", "custom"]), fz(rng, rng.choice(TITLES))])
+        elif r < 0.9:
+            muts.append(["item_append", rng.randrange(4), rng.choice(TITLES)])
+        elif r < 0.96:
+            muts.append(["pop", rng.randrange(8)])
+        else:
+            muts.append(["reverse"])
+    return muts
+
+
 def rand_value(rng, depth=0):
     r = rng.random()
     if r < 0.45:
@@ -49,7 +84,9 @@ def gen_case(rng, cid, null_defaults):
     kw = {}
     for f in OPT_FIELDS:
         if rng.random() < 0.3:
-            kw[f] = rng.choice(TITLES + [None])
+            kw[f] = fz(rng, rng.choice(TITLES + [None]))
+    if rng.random() < 0.15:
+        kw[rng.choice(["version", "summary"])] = fz(rng, rng.choice([1, 2, "s"]), 0.5)
     if rng.random() < 0.2:
         kw[rng.choice(EXTRA_FIELDS)] = rand_value(rng)
     ops.append(["new", kw])
@@ -61,37 +98,52 @@ def gen_case(rng, cid, null_defaults):
             akw = {}
             q = rng.random()
             if q < 0.35:
-                akw["revision"] = rng.choice([None, "12345", 678, "0"])
+                akw["revision"] = rng.choice([None, "12345", 678, "0", 0, "", False])
             if rng.random() < 0.1:
-                akw[rng.choice(["wikiident", "content_type", "custom"])] = rng.choice(["en", "text/x-wiki", None] if not null_defaults else ["en", None])
+                akw[rng.choice(["wikiident", "content_type", "custom"])] = fz(rng, rng.choice(["en", "text/x-wiki", None] if not null_defaults else ["en", None]), 0.3)
                 if not null_defaults and akw.get("content_type", 1) is None:
                     akw["content_type"] = "text/html"
-            ops.append(["append", rng.choice(TITLES), rng.choice([None, None, " Shown ", "Ü"]), akw])
-        elif r < 0.75:
-            t = rng.choice(TITLES + ([None] if null_defaults else []))
+            ops.append(["append", rng.choice(TITLES), rng.choice([None, None, " Shown ", "Ü", ""]), akw])
+        elif r < 0.72:
+            t = fz(rng, rng.choice(TITLES + ([None] if null_defaults else [])))
             ckw = {} if rng.random() < 0.1 else {"title": t}
             ops.append(["additem", "chapter", ckw])
             nchap += 1
+        elif r < 0.76:
+            # an article object put into the list directly: every attribute may carry a falsy value
+            akw = {"title": fz(rng, rng.choice(TITLES), 0.3)}
+            for f in ("revision", "displaytitle", "content_type", "wikiident"):
+                if rng.random() < 0.3:
+                    akw[f] = fz(rng, rng.choice(["1", "x"]), 0.6)
+            ops.append(["additem", "article", akw])
         elif r < 0.8:
-            ops.append(["additem", "custom", {"title": rng.choice(TITLES), "content": "some ''wikitext''"}])
+            ops.append(["additem", "custom", {"title": fz(rng, rng.choice(TITLES)), "content": fz(rng, "some ''wikitext''", 0.3),
+                                              **({"content_type": fz(rng, "text/html", 0.5)} if rng.random() < 0.3 else {})}])
         elif r < 0.95:
             f = rng.choice(OPT_FIELDS + EXTRA_FIELDS + ["summary", "version", "licenses", "wikis"])
             if f == "summary":
-                v = rng.choice(TITLES + ([None] if null_defaults else []))
+                v = fz(rng, rng.choice(TITLES + ([None] if null_defaults else [])))
             elif f == "version":
-                v = rng.choice([1, 2] + ([None] if null_defaults else []))
+                v = fz(rng, rng.choice([1, 2] + ([None] if null_defaults else [])), 0.3)
             elif f == "licenses":
                 v = ["L", [["D", {"name": "GFDL", "mw_rights_text": rng.choice(TITLES)}] for _ in range(rng.randrange(3))]]
             elif f == "wikis":
                 v = ["L", [["O", "WikiConf", {"image": None, "baseurl": "http://w/", "ident": rng.choice(["en", None])}] for _ in range(rng.randrange(2))]]
             else:
-                v = rand_value(rng)
+                v = fz(rng, rand_value(rng))
             ops.append(["set", f, v])
         else:
             ops.append(["reload"])
         if rng.random() < 0.15:
             ops.append(["state"])
-    ops += [["state"], ["dumps"], ["walk"], ["roundtrip"], ["ids", rng.choice(BASES)], ["shared"]]
+        if rng.random() < 0.04:
+            ops.append(["indep", rng.choice(BASES), gen_muts(rng), False])
+    base = rng.choice(BASES)
+    ops += [["state"], ["dumps"], ["walk"], ["roundtrip"], ["ids", base]]
+    if rng.random() < 0.6:
+        # another consumer loads the very text this request carries and works on its own copy
+        ops += [["indep", base, gen_muts(rng), False], ["state"], ["roundtrip"]]
+    ops += [["shared"]]
     if rng.random() < 0.5:
         ops += [["reload"], ["state"], ["dumps"]]
     return {"id": cid, "ops": ops}
@@ -111,7 +163,7 @@ def gen_text_case(rng, cid, null_defaults):
     items = []
     for _ in range(rng.randrange(5)):
         if rng.random() < 0.3:
-            ch = {"type": rng.choice(["chapter", "Chapter"]), "title": rng.choice(TITLES), "items": [art() for _ in range(rng.randrange(3))]}
+            ch = {"type": rng.choice(["chapter", "Chapter"]), "title": fz(rng, rng.choice(TITLES)), "items": [art() for _ in range(rng.randrange(3))]}
             if null_defaults and rng.random() < 0.3:
                 ch["title"] = None
             items.append(ch)
@@ -119,7 +171,11 @@ def gen_text_case(rng, cid, null_defaults):
             items.append(art())
     mb = {"type": rng.choice(["collection", "Collection", "COLLECTION"]), "items": items}
     if rng.random() < 0.5:
-        mb["title"] = rng.choice(TITLES)
+        mb["title"] = fz(rng, rng.choice(TITLES))
+    if rng.random() < 0.15:
+        mb["version"] = rng.choice([0, 1, 2, False, ""])
+    if rng.random() < 0.15:
+        mb[rng.choice(OPT_FIELDS)] = json_of(rng.choice(FALSY))
     if rng.random() < 0.3:
         mb["licenses"] = [{"name": "L", "type": rng.choice(["weird", "license"])}]
     if rng.random() < 0.2:
@@ -127,7 +183,12 @@ def gen_text_case(rng, cid, null_defaults):
     if rng.random() < 0.2:
         mb[rng.choice(EXTRA_FIELDS)] = json_of(rand_value(rng))
     text = json.dumps(mb, ensure_ascii=rng.random() < 0.5, indent=rng.choice([None, 2]))
-    return {"id": cid, "ops": [["loadtext", text], ["dumps"], ["walk"], ["roundtrip"], ["ids", rng.choice(BASES)], ["shared"]]}
+    base = rng.choice(BASES)
+    ops = [["loadtext", text], ["dumps"], ["walk"], ["roundtrip"], ["ids", base]]
+    if rng.random() < 0.6:
+        # the same request text is decoded again by another consumer (True: the text as received, not a re-serialisation)
+        ops += [["indep", base, gen_muts(rng), rng.random() < 0.7], ["state"], ["roundtrip"]]
+    return {"id": cid, "ops": ops + [["shared"]]}
 
 
 def json_of(p):
@@ -285,9 +346,217 @@ def monitor(run, case, op, r, defaults):
         for name, v in ids.items():
             if (name.startswith("diff:") or name.startswith("param:") or name == "nometabook") and v.get("ok") == same:
                 run.hit("id-separation:%s" % name, "collection id does not change under a difference in %s" % name, rp)
+    elif k == "indep":
+        if "exc" in r or "skipped" in r["ok"]:
+            return
+        o = r["ok"]
+        first = o["first"]
+        after = first if o["first_after"] == "=first" else o["first_after"]
+        again = first if o["again"] == "=first" else o["again"]
+        muts = json.dumps(op[2])[:160]
+        if o["shared"]:
+            run.hit("indep:aliased", "two separate loads() of one text (or a load and the object it was "
+                    "serialised from) share mutable state: %r" % (o["shared"][:6],), rp)
+        d = first_diff(first, after)
+        if d or cc.canon(first) != cc.canon(after):
+            run.hit("indep:other-copy-changed:" + str(d).split("/")[-1], "a consumer changed its own loaded copy (%s) and the copy another consumer "
+                    "had loaded from the same text changed at %s" % (muts, d), rp)
+        d = first_diff(first, again)
+        if d or cc.canon(first) != cc.canon(again):
+            run.hit("indep:reload-differs:" + str(d).split("/")[-1], "loads(text) is not a function of the text: after a consumer changed its own "
+                    "copy (%s), loading the same text again differs from the first load at %s" % (muts, d), rp)
+        if o["titles_first"] != o["titles_again"]:
+            run.hit("indep:reload-articles", "articles of loads(text) changed from %r to %r after a consumer changed its own copy" %
+                    (o["titles_first"][:5], o["titles_again"][:5]), rp)
+        if o["dumps_first"] != o["dumps_again"]:
+            run.hit("indep:reload-dumps", "loads(text).dumps() changed after a consumer changed its own copy (%s)" % muts, rp)
+        if o["id_before"] != o["id_after"]:
+            run.hit("indep:id-changed", "make_collection_id of the identical request changed from %r to %r after a consumer changed its own copy "
+                    "of the metabook (%s)" % (o["id_before"], o["id_after"], muts), rp)
+        if o["bystander_changed"]:
+            run.hit("indep:source-changed", "the metabook the text was serialised from changed when a consumer changed the copy it had loaded", rp)
     elif k == "shared":
         if r["ok"]:
             run.hit("shared-defaults:" + r["ok"][0][:60], "operations on one metabook changed another object / a class default: %r" % r["ok"][:3], rp)
+
+
+# ---------------------------------------------------------------------------------------------- settling hits
+
+class Sink:
+    """Collects what the monitor reports on the batch run; settled (re-run alone, minimised) before it reaches run.hit."""
+
+    def __init__(self):
+        self.hits = []
+
+    def hit(self, fingerprint, what, replay):
+        self.hits.append({"fingerprint": fingerprint, "what": what, "replay": replay})
+
+
+def run_cases_fresh(src, cases, defaults):
+    """Run a sequence of cases in ONE fresh interpreter; the monitor's verdicts on the LAST case."""
+    cs = [dict(c, id=i) for i, c in enumerate(cases)]
+    rc, out = core.run_impl("vt.harness.c13_impl", [], src=src, input="".join(json.dumps(c) + "\n" for c in cs))
+    rs = [json.loads(x) for x in out.splitlines() if x.startswith("{")]
+    sink = Sink()
+    if rc != 0 or len(rs) != len(cs) or "harness_error" in rs[-1]:
+        sink.observed = rs[-1] if rs else out[-300:]
+        return sink
+    sink.observed = rs[-1]
+    for op, r in zip(cs[-1]["ops"], rs[-1]["out"]):
+        monitor(sink, cs[-1], op, r, defaults)
+    return sink
+
+
+def ddmin(items, test, pool, budget):
+    """Delta debugging: a 1-minimal sublist of `items` (order kept) on which test() still holds.  The candidates of one
+    round run in parallel; the first one (fixed order) that holds is taken: deterministic."""
+    n = 2
+    items = list(items)
+    while len(items) >= 1 and budget[0] > 0:
+        size = max(1, len(items) // n)
+        chunks = [items[i:i + size] for i in range(0, len(items), size)]
+        cands = []
+        if n > 2 or len(chunks) == 2:
+            cands += chunks
+        cands += [sum(chunks[:i] + chunks[i + 1:], []) for i in range(len(chunks))]
+        seen, uniq = set(), []
+        for c in cands:
+            k = json.dumps(c, sort_keys=True)
+            if len(c) < len(items) and k not in seen:
+                seen.add(k)
+                uniq.append(c)
+        budget[0] -= len(uniq)
+        res = list(pool.map(test, uniq))
+        hit = next((c for c, ok in zip(uniq, res) if ok), None)
+        if hit is not None:
+            items = hit
+            n = max(2, min(n - 1, len(items)))
+            if not items:
+                break
+        elif size == 1:
+            break
+        else:
+            n = min(len(items), n * 2)
+    return items
+
+
+def shrink_json(j, test, budget):
+    """Greedy structural shrinking of a JSON value: drop dict entries / list elements while test(j) holds."""
+    changed = True
+    while changed and budget[0] > 0:
+        changed = False
+        for path in list(_paths(j)):
+            if budget[0] <= 0:
+                break
+            cand = json.loads(json.dumps(j))
+            o = cand
+            try:
+                for k in path[:-1]:
+                    o = o[k]
+                del o[path[-1]]
+            except (KeyError, IndexError, TypeError):
+                continue
+            budget[0] -= 1
+            if test(cand):
+                j = cand
+                changed = True
+                break
+    return j
+
+
+def _paths(j, pre=()):
+    """Paths of all removable parts, big ones (list elements) first."""
+    if isinstance(j, list):
+        for i in range(len(j) - 1, -1, -1):
+            yield pre + (i,)
+        for i, x in enumerate(j):
+            yield from _paths(x, pre + (i,))
+    elif isinstance(j, dict):
+        for k in sorted(j):
+            if k != "type":
+                yield pre + (k,)
+        for k in sorted(j):
+            yield from _paths(j[k], pre + (k,))
+
+
+def settle_hits(run, sink, src, defaults, cases, nshard):
+    """Each distinct clause the monitor reported on the batch run is re-run ALONE in a fresh interpreter (what
+    `./check C13 --replay` does) and shrunk while the same clause keeps firing: ops of the case (delta debugging), keyword
+    arguments / mutation lists of the remaining ops, the structure of a hand-made request text.  A clause that does not fire
+    alone depends on what the process did before: its replay is the sequence of cases of that process, shrunk the same way."""
+    by_fp = {}
+    for h in sink.hits:
+        by_fp.setdefault(h["fingerprint"], []).append(h)
+    if not by_fp:
+        return
+    import concurrent.futures
+    pool = concurrent.futures.ThreadPoolExecutor(8)
+
+    def fires(fp, cs):
+        try:
+            s = run_cases_fresh(src, cs, defaults)
+        except Exception:
+            return None
+        return next((h for h in s.hits if h["fingerprint"] == fp), None)
+
+    try:
+        # report at most 5 clauses (run.finish prints 5), spread over the clause families
+        fams = {}
+        for fp in by_fp:
+            fams.setdefault(fp.split(":")[0], []).append(fp)
+        order = []
+        while len(order) < 5 and any(fams.values()):
+            for f in sorted(fams):
+                if fams[f] and len(order) < 5:
+                    order.append(fams[f].pop(0))
+        for fp in order:
+            budget = [100]
+            got, pre, case = None, [], None
+            for h in by_fp[fp][:3]:
+                case = {"ops": h["replay"]["case"]["ops"]}
+                budget[0] -= 1
+                got = fires(fp, [case])
+                if got:
+                    break
+            if not got:
+                h = by_fp[fp][0]
+                cid_ = h["replay"]["case"]["id"]
+                case = {"ops": h["replay"]["case"]["ops"]}
+                pre = [{"ops": c["ops"]} for c in cases if c["id"] % nshard == cid_ % nshard and c["id"] < cid_]
+                budget[0] -= 1
+                got = fires(fp, pre + [case])
+                if got:
+                    pre = ddmin(pre, lambda sub: bool(fires(fp, sub + [case])), pool, budget)
+            if not got:
+                run.hit(fp + ":not-reproduced-alone", by_fp[fp][0]["what"] + " (seen in the batch run; did not fire again when re-run in a fresh "
+                        "process)", {"case": case})
+                continue
+            ops = ddmin(case["ops"], lambda sub: bool(fires(fp, pre + [{"ops": sub}])), pool, budget)
+            # second level: keyword dicts, mutation lists, request texts of the remaining ops
+            for oi in range(len(ops)):
+                op = ops[oi]
+
+                def with_op(new, oi=oi):
+                    return pre + [{"ops": ops[:oi] + [new] + ops[oi + 1:]}]
+                if op[0] in ("new", "additem", "append"):
+                    slot = {"new": 1, "additem": 2, "append": 3}[op[0]]
+                    keys = ddmin(sorted(op[slot]), lambda sub, op=op, slot=slot: bool(fires(fp, with_op(op[:slot] + [{k: op[slot][k] for k in sub}] + op[slot + 1:]))),
+                                 pool, budget)
+                    ops[oi] = op[:slot] + [{k: op[slot][k] for k in keys}] + op[slot + 1:]
+                elif op[0] == "indep":
+                    muts = ddmin(op[2], lambda sub, op=op: bool(fires(fp, with_op([op[0], op[1], sub, op[3]]))), pool, budget)
+                    ops[oi] = [op[0], op[1], muts, op[3]]
+                elif op[0] == "loadtext":
+                    j = shrink_json(json.loads(op[1]), lambda cand: bool(fires(fp, with_op(["loadtext", json.dumps(cand)]))), budget)
+                    if json.dumps(j) != json.dumps(json.loads(op[1])):
+                        ops[oi] = ["loadtext", json.dumps(j)]
+            final = fires(fp, pre + [{"ops": ops}]) or got
+            rp = {"case": {"ops": ops}}
+            if pre:
+                rp["before"] = pre
+            run.hit(fp, final["what"], rp)
+    finally:
+        pool.shutdown()
 
 
 # ---------------------------------------------------------------------------------------------- check
@@ -408,7 +677,8 @@ def _check(run, src, model, defaults):
     if len(results) != len(cases):
         raise RuntimeError("c13_impl: %d/%d cases" % (len(results), len(cases)))
     dis_ops, dis_ids = [], []
-    dist = {"ops": {}, "articles": {}, "id_variants": {}, "outcomes": {}}
+    sink = Sink()
+    dist = {"ops": {}, "articles": {}, "id_variants": {}, "outcomes": {}, "indep": {}}
     nops = nids = 0
     for case in cases:
         res = results[case["id"]]
@@ -480,7 +750,10 @@ def _check(run, src, model, defaults):
                                                                                   json.dumps(r)[:200], m[:100]))
         for oi, op in enumerate(case["ops"]):
             r = res["out"][oi]
-            monitor(run, case, op, r, defaults)
+            monitor(sink, case, op, r, defaults)
+            if op[0] == "indep" and "ok" in r and "skipped" not in r["ok"]:
+                key = "copy-mutated" if r["ok"]["mutated"] else "copy-unchanged"
+                dist["indep"][key] = dist["indep"].get(key, 0) + 1
             if op[0] == "ids" and "ok" in r:
                 for name, v in r["ok"]["ids"].items():
                     nids += 1
@@ -515,6 +788,7 @@ def _check(run, src, model, defaults):
             run.sample({"ops": case["ops"][:8], "ids": {k: v.get("ok") for k, v in list(ids[0]["ok"]["ids"].items())[:7]} if ids and "ok" in ids[0] else None})
     run.tie("metabook op sequences: extracted model vs mwlib.core.metabook/myjson (state, dumps as JSON value, walk)", nops, dis_ops)
     run.tie("make_collection_id: recomputed from the model's canonical JSON with simplejson+sha256 vs nserve.make_collection_id", nids, dis_ids)
+    settle_hits(run, sink, src, defaults, cases, nshard)
     # Unicode tables restated in the model
     rc, out = core.run_impl("vt.harness.c13_impl", ["unicode"], src=src, timeout=600)
     u = json.loads([x for x in out.splitlines() if x.startswith("{")][-1])
@@ -538,17 +812,14 @@ def replay(obj):
     if not case:
         print(json.dumps(obj["replay"], indent=1))
         return 1
-    case = dict(case)
-    case["id"] = 0
-    rc, out = core.run_impl("vt.harness.c13_impl", [], src=src, input=json.dumps(case) + "\n")
-    res = json.loads([x for x in out.splitlines() if x.startswith("{")][-1])
-    run = core.Run("C13", "quick")
-    for op, r in zip(case["ops"], res["out"]):
-        if op[0] in ("roundtrip", "ids", "shared"):
+    seq = [dict(c) for c in obj["replay"].get("before", [])] + [dict(case)]
+    sink = run_cases_fresh(src, seq, defaults)
+    res = sink.observed
+    for op, r in zip(case["ops"], res.get("out", []) if isinstance(res, dict) else []):
+        if op[0] in ("roundtrip", "ids", "shared", "indep"):
             print(json.dumps({"op": op[0], "result": r}, indent=1)[:3000])
-        monitor(run, case, op, r, defaults)
-    for h in run.hits:
+    for h in sink.hits:
         print("REPRODUCED:", h["fingerprint"], "-", h["what"])
-    if not run.hits:
+    if not sink.hits:
         print("not reproduced")
-    return 1 if run.hits else 0
+    return 1 if sink.hits else 0
